@@ -43,3 +43,4 @@ INVARIANT FreshThreadDefaults
 INVARIANT Restore
 INVARIANT RejectAtomic
 INVARIANT CallIsolation
+PROPERTY OptionLawsOnEveryStep
